@@ -142,12 +142,19 @@ class QueueSink(Sink[Any]):
         self._foreach = foreach
 
     def write(self, item: Any) -> None:
-        try:
-            item = (item if self._foreach else [item])
-            for i in item:
+        items = iter(item if self._foreach else [item])
+        while True:
+            #the items may be produced lazily (e.g., by a filter running in a worker process). An
+            #error raised while producing them is the producer's and must not be mistaken for a closed queue.
+            try:
+                i = next(items)
+            except StopIteration:
+                return
+
+            try:
                 self._queue.put(i)
-        except (EOFError,BrokenPipeError,AssertionError):
-            pass
+            except (EOFError,BrokenPipeError,AssertionError):
+                return #the queue was closed underneath us
 
 class LambdaSink(Sink[Any]):
     """A sink which passes written items to a callable function."""
